@@ -1,4 +1,5 @@
 import DroopProofs.Lower
+import DroopProofs.InvMpls
 
 /-! # C02, lower half, at run level: wigm family (no zero batch), Scottish rule, CfER -/
 namespace Droop
@@ -11,9 +12,11 @@ structure LStart (q : α) (s0 : St α) : Prop where
   /-- the reader removes withdrawn candidates from every ballot -/
   noW : ∀ b ∈ s0.ballots, ∀ c ∈ s0.cands, c.st = .withdrawn → b.top ≠ some c.cid
 
-theorem LInv.gInit (hA : LawfulArith A) (u : α) {q : α} {s0 : St α} (h : LStart A q s0) : LInv A u (gInit A q s0) := by
+/-- the state after the quota is set and the first preferences are counted (nothing logged yet) -/
+theorem LInv.initCore (hA : LawfulArith A) (u : α) {q : α} {s0 : St α} (h : LStart A q s0) :
+    LInv A u ((firstCount A (s0.setQuota q)).setExhausted A.zero)
+    ∧ ((firstCount A (s0.setQuota q)).setExhausted A.zero).method = .wigm := by
   have h0 := h.init
-  unfold Droop.gInit
   set s1 : St α := s0.setQuota q with hs1
   have hsk1 : s1.skel = s0.skel := rfl
   have hcore : ((firstCount A s1).setExhausted A.zero).method = .wigm
@@ -91,13 +94,17 @@ theorem LInv.gInit (hA : LawfulArith A) (u : α) {q : α} {s0 : St α} (h : LSta
       show (s1.ballots.foldl (fcStep A) s1).sumVotes + A.zero = _
       rw [hsum, hA.zero_eq, add_zero]
   obtain ⟨c0, c1, c2, c3, c4, c5⟩ := hcore
-  apply LInv.logAct' A u c0 c1 c2 c3
+  refine ⟨⟨c1, c2, c3, ?_, ?_⟩, c0⟩
+  · rw [c5, c4]; simp [nST]
   · intro l a hsuf
     rw [c4] at hsuf
     have := List.IsSuffix.length_le hsuf
     simp at this
-  · rw [c5, c4]
-    simp [isSTs, nST]
+
+theorem LInv.gInit (hA : LawfulArith A) (u : α) {q : α} {s0 : St α} (h : LStart A q s0) : LInv A u (gInit A q s0) := by
+  obtain ⟨hc, hm⟩ := LInv.initCore A hA u h
+  unfold Droop.gInit
+  exact hc.logAct A u hm _ _ _ (by decide)
 
 /-- the conservation bundle together with the lower bound -/
 def InvL (u : α) (s : St α) : Prop := Inv A s ∧ LInv A u s
@@ -445,5 +452,184 @@ theorem cfer_lower (hex : A.exact = false) (batch : Bool) (s0 t : St α) (h0 : I
   exact (h4.logAct A u _ _ _ (by decide)).2
 
 end cfer
+
+/-! ## Minneapolis -/
+section mpls
+variable (hA : LawfulArith A) (u : α) (hu : 0 ≤ u) (hlow : RewLower A u (rewMulDiv A))
+include hA hu hlow
+
+omit hA hu hlow in
+theorem LInv.foldDefeatV {s : St α} (h : LInv A u s) (hm : s.method = .wigm) (ws : List (Cand α)) (verb : Cand α → String) :
+    LInv A u (ws.foldl (fun acc c => acc.defeat A c.cid (verb c)) s) := by
+  induction ws generalizing s with
+  | nil => exact h
+  | cons w ws ih =>
+    simp only [List.foldl_cons]
+    apply ih (h.defeat A u hm w.cid _)
+    unfold St.defeat St.logAct; simp only; split <;> exact hm
+
+omit hA hu hlow in
+/-- `mplsLogTransfer` of an exclusion: the reporting surplus is set, then a non-surplus `transfer` action is logged -/
+theorem LInv.mplsLogTransferD {s : St α} (h : LInv A u s) (hm : s.method = .wigm) (subj : List Nat) :
+    LInv A u (Droop.mplsLogTransfer A s "Transfer defeated" subj) := by
+  unfold Droop.mplsLogTransfer
+  exact (h.setSurplus A u (mplsSurplusAll A s false)).logAct A u hm "transfer" "Transfer defeated" subj (by decide)
+
+omit hu hlow in
+theorem InvL.mplsDefeatMany {s : St α} (h : InvL A u s) (l : List (Cand α))
+    (hsub : ∀ w ∈ l, w ∈ s.hopeful) (hnd : (l.map (·.cid)).Nodup) : InvL A u (Droop.mplsDefeatMany A s l).1 := by
+  refine ⟨h.1.mplsDefeatMany A hA l hsub hnd, ?_⟩
+  unfold Droop.mplsDefeatMany
+  have hj := justDefeated_foldDefeatV A h.1 l mplsDefeatVerb hnd hsub
+  obtain ⟨hc, hm⟩ := LInv.defeatedCore A hA u (h.1.foldDefeatV A l mplsDefeatVerb)
+    (LInv.foldDefeatV A u h.2 h.1.meth l mplsDefeatVerb) _ hj.1 hj.2
+  exact LInv.mplsLogTransferD A u hc hm _
+
+theorem InvL.mplsElectSurplus (hex : A.exact = false) {s : St α} (h : InvL A u s) (hwq : List (Cand α)) (hv : α)
+    (hsub : ∀ w ∈ hwq, w ∈ s.hopeful ∧ hasQuotaGE A s w = true) : InvL A u (Droop.mplsElectSurplus A s hwq hv).1 := by
+  refine ⟨h.1.mplsElectSurplus A hA hex hwq hv hsub, ?_⟩
+  unfold Droop.mplsElectSurplus
+  have hI1 := h.1.breakTie A (hwq.filter (fun c => A.eq c.vote hv)) "Break tie (largest surplus)"
+  have hL1 := h.2.breakTie A u h.1.meth (hwq.filter (fun c => A.eq c.vote hv)) "Break tie (largest surplus)"
+  have hfr := breakTie_frame A s (hwq.filter (fun c => A.eq c.vote hv)) "Break tie (largest surplus)"
+  have hmem := breakTie_mem A s (hwq.filter (fun c => A.eq c.vote hv)) "Break tie (largest surplus)"
+  cases hb : Droop.breakTie A s (hwq.filter (fun c => A.eq c.vote hv)) "Break tie (largest surplus)" with
+  | mk s3 oc =>
+    rw [hb] at hI1 hL1 hfr hmem
+    cases oc with
+    | none => exact hL1
+    | some hc =>
+      simp only
+      have hcm := hmem hc rfl
+      rw [List.mem_filter] at hcm
+      obtain ⟨hch, hcq⟩ := hsub hc hcm.1
+      obtain ⟨hcs, hchop⟩ := mem_hopeful.1 hch
+      obtain ⟨e1, e2, e3, e4, e5⟩ := hfr
+      have hcs3 : hc ∈ s3.cands := by simp only at e1; rw [e1]; exact hcs
+      have h4 := hI1.electNP A hc.cid "Elect"
+      have hL4 := hL1.elect A u hI1.meth hc.cid "Elect" false
+      let x : Cand α := { hc with st := .elected, pending := false }
+      have hx : x ∈ (s3.elect A hc.cid "Elect" false).cands := by
+        unfold St.elect; rw [logAct_cands]
+        exact mem_upd_of_eq (f := fun c => { c with st := .elected, pending := false }) hcs3 rfl
+      have hcore : Droop.surplusCore A (s3.elect A hc.cid "Elect" false) hc (rewMulDiv A) =
+          Droop.surplusCore A (s3.elect A hc.cid "Elect" false) x (rewMulDiv A) := surplusCore_congr A _ hc x _ rfl rfl
+      show LInv A u (Droop.mplsLogTransfer A (Droop.surplusCore A (s3.elect A hc.cid "Elect" false) hc (rewMulDiv A))
+        "Transfer surplus" [hc.cid])
+      rw [hcore]
+      have hpre := LInv.surplusCore_pre A hA u hu (rewMulDiv A) hlow h4 hL4 x hx (by simp [x]) (by simp [x])
+        (by
+          have ht : (s3.elect A hc.cid "Elect" false).tally A x.cid = s.tally A hc.cid := by
+            unfold St.tally St.elect
+            rw [logAct_ballots]
+            show (List.map _ s3.ballots).sum = _
+            simp only at e2; rw [e2]
+          rw [ht]
+          exact h.1.i1 hc hcs (Or.inl hchop))
+        (by
+          have hq : (s3.elect A hc.cid "Elect" false).quota = s.quota := by
+            unfold St.elect; rw [logAct_quota]; simp only at e4; exact e4
+          rw [hq]
+          exact hasQuotaGE_sound A hA hex s hc hcq)
+      obtain ⟨c0, c1, c2, c3, c4, c5⟩ := hpre
+      unfold Droop.mplsLogTransfer
+      generalize Droop.surplusCore A (s3.elect A hc.cid "Elect" false) x (rewMulDiv A) = core at *
+      have hst : isSTs "transfer" "Transfer surplus" = true := by decide
+      exact LInv.logAct' A u (s := core.setSurplus (mplsSurplusAll A core false)) c0 c1 c2 c3 c4
+        "transfer" "Transfer surplus" [hc.cid] (by simp only [hst, if_true]; exact c5)
+
+omit hu hlow in
+theorem InvL.mplsDefeatLow {s : St α} (h : InvL A u s) : InvL A u (Droop.mplsDefeatLow A s) := by
+  refine ⟨h.1.mplsDefeatLow A hA, ?_⟩
+  unfold Droop.mplsDefeatLow
+  split
+  · cases hm : minVoteOf A s.hopeful with
+    | none => exact h.2
+    | some lv =>
+      simp only
+      have hI1 := h.1.breakTie A (s.hopeful.filter (fun c => A.eq c.vote lv)) "Break tie (defeat low candidate)"
+      have hL1 := h.2.breakTie A u h.1.meth (s.hopeful.filter (fun c => A.eq c.vote lv)) "Break tie (defeat low candidate)"
+      have hfr := breakTie_frame A s (s.hopeful.filter (fun c => A.eq c.vote lv)) "Break tie (defeat low candidate)"
+      have hmem := breakTie_mem A s (s.hopeful.filter (fun c => A.eq c.vote lv)) "Break tie (defeat low candidate)"
+      cases hb : Droop.breakTie A s (s.hopeful.filter (fun c => A.eq c.vote lv)) "Break tie (defeat low candidate)" with
+      | mk s1 oc =>
+        rw [hb] at hI1 hL1 hfr hmem
+        cases oc with
+        | none => exact hL1
+        | some lc =>
+          simp only
+          have hcm := hmem lc rfl
+          rw [List.mem_filter] at hcm
+          obtain ⟨hcs, hch⟩ := mem_hopeful.1 hcm.1
+          obtain ⟨e1, e2, e3, e4, e5⟩ := hfr
+          have hl1 : lc ∈ s1.hopeful := by
+            apply mem_hopeful.2
+            simp only at e1; rw [e1]; exact ⟨hcs, hch⟩
+          unfold mplsAfterDefeatLow
+          split
+          · have hj := justDefeated_foldDefeat A hI1 [lc] [lc] "Defeat low candidate" (List.Perm.refl _) (by simp)
+              (by intro w hw; simp at hw; rw [hw]; exact hl1)
+            simp only [List.foldl_cons, List.foldl_nil, List.map_cons, List.map_nil] at hj
+            obtain ⟨hc, hmc⟩ := LInv.defeatedCore A hA u (hI1.defeat A lc.cid "Defeat low candidate")
+              (hL1.defeat A u hI1.meth lc.cid "Defeat low candidate") [lc.cid] hj.1 hj.2
+            exact LInv.mplsLogTransferD A u hc hmc _
+          · exact hL1.defeat A u hI1.meth lc.cid _
+  · exact h.2
+
+theorem InvL.mplsRound (hex : A.exact = false) {s : St α} (h : InvL A u s) : InvL A u (Droop.mplsRound A s).1 := by
+  unfold Droop.mplsRound
+  split
+  · exact InvL.mplsDefeatMany A hA u h _ (mplsDefeatSet_hopeful A s) (mplsDefeatSet_nodup A s h.1.wf)
+  · split
+    · rename_i hd hs heq
+      apply InvL.mplsElectSurplus A hA u hu hlow hex h
+      intro w hw
+      have : w ∈ (byVote A true s.hopeful).filter (hasQuotaGE A s) := by rw [heq]; exact hw
+      rw [List.mem_filter] at this
+      exact ⟨(mem_pySorted _ _ _ _).1 this.1, this.2⟩
+    · unfold mplsFinish
+      split <;> exact InvL.mplsDefeatLow A hA u h
+
+theorem InvL.mplsBody (hex : A.exact = false) {s : St α} (h : InvL A u s) : InvL A u (Droop.mplsBody A s).1 := by
+  have hcv : InvL A u (mplsCountVotes A s) := by
+    refine ⟨h.1.mplsCountVotes A, ?_⟩
+    unfold mplsCountVotes
+    exact (h.2.setSurplus A u (mplsSurplusAll A s true)).logAct A u h.1.meth "count" "Count Votes" [] (by decide)
+  unfold Droop.mplsBody
+  split
+  · refine ⟨hcv.1.mplsElectThreshold A, ?_⟩
+    unfold mplsElectThreshold
+    exact (hcv.2.foldElect A u hcv.1.meth _ (fun _ => "Candidate at threshold") (fun _ => false)).1
+  · exact InvL.mplsRound A hA u hu hlow hex ⟨hcv.1.newRound A, hcv.2.newRound A u hcv.1.meth⟩
+
+omit hu hlow in
+theorem InvL.mplsEpilogue {s : St α} (h : InvL A u s) : InvL A u (Droop.mplsEpilogue A s) := by
+  refine ⟨h.1.mplsEpilogue A, ?_⟩
+  unfold Droop.mplsEpilogue
+  split
+  · have h6 := h.2.foldElect A u h.1.meth s.hopeful (fun _ => "Elect remaining candidates") (fun _ => false)
+    exact (h6.1.foldDefeat A u h6.2 _ _).1
+  · exact (h.2.foldDefeat A u h.1.meth _ _).1
+
+/-- **C02, lower half, Minneapolis** -/
+theorem mpls_lower (hex : A.exact = false) (s0 t : St α) (h0 : Init A s0)
+    (hl0 : LStart A (A.ofInt (pdiv s0.nballots (s0.seats + 1) + 1)) s0)
+    (hq : 0 < A.ofInt (pdiv s0.nballots (s0.seats + 1) + 1)) (h : mplsCount A s0 = some t) :
+    LInv A u (t.logAct A "end" "Count Complete" []) := by
+  unfold mplsCount at h
+  cases hl : loopN (fun _ => true) (mplsBody A) (2 * s0.cands.length + 4) (mplsInit A s0) with
+  | none => rw [hl] at h; cases h
+  | some s4 =>
+    rw [hl] at h; cases h
+    obtain ⟨hc, hm⟩ := LInv.initCore A hA u hl0
+    have hinit : InvL A u (mplsInit A s0) := by
+      refine ⟨Inv.mplsInit A hA h0 hq, ?_⟩
+      unfold mplsInit
+      exact hc.newRound A u hm
+    have h4 : InvL A u s4 :=
+      loopN_preserves (InvL A u) (fun _ => true) (mplsBody A) (fun s hs => InvL.mplsBody A hA u hu hlow hex hs) _ _ _ hinit hl
+    exact ((InvL.mplsEpilogue A hA u h4).logAct A u _ _ _ (by decide)).2
+
+end mpls
 
 end Droop
